@@ -190,6 +190,24 @@ Shapes == <<
       Def("C2", TRef("C1")), Def("C3", TRef("C2")), Def("E1", TEnum(<<"a", "b">>)), Def("E2a", TRef("E1")), Def("L1", TArr(TRef("C1"))), Def("L2", TRef("L1"))>>),
   Sh("enum-mixed-members", {"enum-str"}, <<RF(<<F("e", TEnum(<<"1x", "b", "a-b", "B">>)), FOpt("oe", TEnum(<<"b", "1x">>)), F("re", TRef("Mixed"))>>),
       Def("Mixed", TEnum(<<"2nd", "first", "third one">>))>>),
+  \* ---- named scalars / enums / collections that carry constraints, referenced in every mode and from collections (audit 13 / 6)
+  Sh("alias-constrained", {"ref", "alias", "bounds"}, <<RF(<<
+      F("lv", TRef("Level")), FOpt("olv", TRef("Level")), FNull("nlv", TRef("Level")), FOptNull("onlv", TRef("Level")),
+      F("nm", TRef("Name")), FOpt("onm", TRef("Name")), FOpt("ort", TRef("Ratio")), F("alv", TArr(TRef("Level"))), F("mnm", TMap(TRef("Name"))),
+      FOpt("oalv", TArr(TRef("Level"))), FOpt("ocl", TRef("Color")), FOpt("otags", TRef("Tags")), FDef("dlv", TRef("Level"), JInt(2))>>),
+      Def("Level", TInt("int64", Ge(1), Le(5))), Def("Name", TStr(1, 9)), Def("Ratio", TNum("float64", Gt(0), NoB)),
+      Def("Color", TEnum(<<"red", "green">>)), Def("Tags", TArr(TStr(1, -1)))>>),
+  \* ---- a struct-valued default that gives only SOME fields of the referred struct, the missing ones being references themselves
+  Sh("default-struct-partial", {"default", "ref"}, <<RF(<<FDef("w", TRef("Wrapper"), JObj(<<P("label", JStr("x"))>>)),
+      Fld("ow", TRef("Wrapper"), FALSE, FALSE, JObj(<<P("label", JStr("y"))>>)), F("plain", TRef("Wrapper"))>>),
+      Def("Wrapper", TStruct(<<F("label", S0), F("nested", TRef("Nested")), FOpt("onested", TRef("Nested")), F("kids", TArr(TRef("Nested"))),
+                               F("color", TRef("Color"))>>)),
+      Def("Nested", TStruct(<<F("n", I0)>>)), Def("Color", TEnum(<<"red", "green">>))>>),
+  \* ---- unions of scalars WITH collection, enum and any branches
+  Sh("union-scalars-collections", {"union-scalars", "map", "array"}, <<RF(<<
+      F("sm", TUnion(<<S0, TMap(S0)>>)), F("sa", TUnion(<<S0, TArr(S0)>>)), FOpt("ima", TUnion(<<I0, TMap(I0), TArr(S0)>>)),
+      F("bm", TUnion(<<TBool, TMap(TBool)>>)), FOpt("se", TUnion(<<E2, I0>>)), F("san", TUnion(<<S0, TArr(TAny)>>)),
+      F("am", TArr(TUnion(<<S0, TMap(S0)>>)))>>)>>),
   \* ---- date-time, any
   Sh("time", {"time"}, <<RF(<<F("t", TTime), FOpt("ot", TTime), F("at", TArr(TTime)), F("mt", TMap(TTime))>>)>>),
   Sh("any", {"any"}, <<RF(<<F("an", TAny), FOpt("oan", TAny), F("aan", TArr(TAny)), F("man", TMap(TAny))>>)>>),
